@@ -155,9 +155,11 @@ pub fn drive(
     let mut stats = CorpusStats::default();
 
     // Enumeration: layers 0..=k sequentially up to k-1, the last layer expanded in parallel.
-    // Layers 0..=min(k,2) are materialised; a third layer is streamed from layer 2 (only its
-    // fingerprints are kept), so memory stays bounded.
-    let base_k = cfg.k.min(2);
+    // Layers 0..=min(k-1,2) are materialised; the last layer is streamed from the one before it (only
+    // its fingerprints are kept), so memory stays bounded.
+    // The last layer is always streamed (never materialised): its size is the product of the
+    // previous layer and the menu, which reaches tens of millions for wide menus.
+    let base_k = cfg.k.saturating_sub(1).min(2);
     let layers = qgen::enumerate(sm, &cfg.seeds, base_k, &cfg.gen);
     stats.generated_per_layer = layers.iter().map(|l| l.len()).collect();
     const SHARDS: usize = 256;
